@@ -345,6 +345,54 @@ func generate(r *rng.R, thorough bool, index int) *history {
 		leave(cw)
 		do(opJSON{K: "tick", C: newCall(), DT: h.Cfg.NoWait + 1000 + int64(r.Intn(1000))})
 	}
+	// the first client of an operation leaves; before the abandonment timeout a
+	// second Execute of the same action in the same invocation attaches to that
+	// very operation (or, with other invocation keys, to its task); the original
+	// deadline passes while the second client waits
+	reExecute := func() {
+		var cands []genPQ
+		for _, p := range pqs {
+			for _, q := range last.PlatformQueues {
+				if q.InstanceNamePrefix == instanceString(p.prefix) && platformStrings[q.Platform] == p.plat {
+					cands = append(cands, p)
+					break
+				}
+			}
+		}
+		if len(cands) == 0 {
+			return
+		}
+		p := cands[r.Intn(len(cands))]
+		dg := 60 + uint64(r.Intn(5))*2 + p.plat%2
+		if dg%5 == 3 {
+			dg += 2
+		}
+		inst := append(append([]uint64{}, p.prefix...), instances[r.Intn(2)]...)
+		nsc := scsFor(inst, dg%2)
+		mk := func(keys []uint64) *execScript {
+			return &execScript{Inst: inst, Plat: dg % 2, Digest: dg, Prio: 0, Keys: keys, SelIdx: r.Intn(nsc),
+				SelDur: int64(r.Intn(50)) * sec, SelTO: int64(1+r.Intn(100)) * sec, Learner: genLearner(r, &learnerID, nsc, 0)}
+		}
+		idxA := int(w.uuids.n)
+		ca := newCall()
+		do(opJSON{K: "exec", C: ca, DT: dt() % 1000, Exec: mk([]uint64{1, 3})})
+		if int(w.uuids.n) != idxA+1 {
+			return
+		}
+		leave(ca)
+		if _, ret := live(ca); !ret {
+			return
+		}
+		do(opJSON{K: "tick", C: newCall(), DT: h.Cfg.NoWait/2 + int64(r.Intn(1000))})
+		keys := []uint64{1, 3}
+		if r.Chance(30) {
+			keys = []uint64{2, 3}
+		}
+		cb := newCall()
+		do(opJSON{K: "exec", C: cb, DT: dt() % 1000, Exec: mk(keys)})
+		do(opJSON{K: "tick", C: newCall(), DT: h.Cfg.NoWait/2 + 5000 + int64(r.Intn(1000))})
+		do(opJSON{K: "tick", C: newCall(), DT: h.Cfg.NoWait/2 + int64(r.Intn(1000))})
+	}
 	n := 30 + r.Intn(61)
 	if thorough {
 		n = 60 + r.Intn(120)
@@ -523,8 +571,12 @@ func generate(r *rng.R, thorough bool, index int) *history {
 		case x < 98:
 			wk := workers[r.Intn(len(workers))]
 			do(opJSON{K: "killq", C: newCall(), DT: dt(), SK: &wk.SK, Code: 10})
-		case x == 99 && !policy && !retry && r.Chance(60):
-			staleReattach()
+		case x >= 98 && !policy && !retry && r.Chance(60):
+			if r.Chance(50) {
+				staleReattach()
+			} else {
+				reExecute()
+			}
 		default:
 			do(opJSON{K: "tick", C: newCall(), DT: dt()})
 		}
